@@ -587,6 +587,10 @@ func runCase(r *ev.Run, we *wenv, k kase) {
 		// a crash delivers nothing; crashes are C14's (and C11's for masked columns) subject — recorded, not judged here
 		r.Count("operation_panicked", 1)
 		r.SetAdd("panicking_input_classes", k.tgt.name+"|"+k.class)
+		panicMu.Lock()
+		panicClasses[k.tgt.name+" | "+stripLen(k.class)]++
+		r.Extra("operations_that_panicked(entry point | input class)", copyMap(panicClasses))
+		panicMu.Unlock()
 		r.SampleN("panic", 2, detail())
 		return
 	}
@@ -662,4 +666,27 @@ func runCase(r *ev.Run, we *wenv, k kase) {
 	r.Distinct(fmt.Sprintf("pos|%s|%s|%s|age%d|%s", k.st.name, k.tgt.name, k.kind, k.keyAge, k.placement))
 	r.SampleN("pos:"+k.tgt.group+":"+k.kind, 2, map[string]interface{}{"case": "positive", "keystore": k.st.name, "epoch": k.epoch, "entry_point": k.tgt.name, "class": k.class, "offset": k.offset,
 		"input": ev.Hex(k.input), "callback_events(seq,goroutine)": res.Events, "operation_goroutine": res.OpGid, "delivery_seq": res.DeliverySeq, "delivered_digest": digest(res.Out), "err": fmt.Sprint(res.Err)})
+}
+
+var (
+	panicMu      sync.Mutex
+	panicClasses = map[string]int{}
+)
+
+func copyMap(m map[string]int) map[string]int {
+	o := map[string]int{}
+	for k, v := range m {
+		o[k] = v
+	}
+	return o
+}
+
+// stripLen removes the record length from a class label (keeps the panic table small).
+func stripLen(c string) string {
+	if i := strings.Index(c, ",len="); i >= 0 {
+		if j := strings.Index(c[i:], ")"); j >= 0 {
+			return c[:i] + c[i+j:]
+		}
+	}
+	return c
 }
